@@ -555,6 +555,7 @@ fn main() {
         "bnd_c20" => bounded::bnd_c20(),
         "bnd_doc" => bounded::bnd_doc(),
         "c03_elements" => bounded::c03_elements(),
+        "c02_elements" => bounded::c02_elements(),
         "c08_elements" => bounded::c08_elements(),
         "bnd_mut" => bounded::bnd_mut(),
         "c06_positions" => bounded::c06_positions(),
